@@ -23,7 +23,9 @@ def gen_tree(rng, root, tier):
         sizes += [4 * 1024 * 1024 - 1, 4 * 1024 * 1024, 4 * 1024 * 1024 + 1]
     comps = ["a", "b.txt", "dir", "sub dir", "hé世", "x" * 40, "data.bin", "UPPER", "dot.d", "-dash", "tab\tname" if False else "t_name",
              # two dots that are NOT a parent-directory component
-             "notes..txt", "v1..2", "...hidden", "trailing.."]
+             "notes..txt", "v1..2", "...hidden", "trailing..",
+             # a backslash is an ordinary character of a Unix file name
+             "re\\2024.txt", "back\\dir"]
     files = {}
     n = rng.randint(1, 6)
     while len(files) < n:
@@ -97,9 +99,16 @@ def pipeline(mlar, rng, work, k, tier):
             pub = der
         args += ["-p", os.path.join(SAMPLES, pub)]
     # `-l` without value must not swallow a file name: put files after `--`
-    rc, out, err = run(mlar, args + ["--"] + names, src)
+    # every third archive gets its paths through the file list on standard input (`create ... -`), newline-separated,
+    # with and without a newline after the last path
+    how = ["args", "stdin-final-newline", "stdin-no-final-newline"][k % 3] if k % 6 < 3 else "args"
+    meta["paths_given_by"] = how
+    if how == "args":
+        rc, out, err = run(mlar, args + ["--"] + names, src)
+    else:
+        rc, out, err = run(mlar, args + ["--", "-"], src, stdin=("\n".join(names) + ("\n" if how == "stdin-final-newline" else "")).encode("utf8"))
     if rc != 0:
-        return meta, ["create failed (rc %d): %s" % (rc, err[-200:].decode("utf8", "replace"))], "create-failed"
+        return meta, ["create (paths given by %s) failed (rc %d): %s" % (how, rc, err[-200:].decode("utf8", "replace"))], "create-failed"
     kargs = ["-k", os.path.join(SAMPLES, reader[0])] if enc else []
     # several candidate keys, the matching one not first (every key option must be honoured)
     decoys = [x for x in KEYS if x not in keyset]
